@@ -343,6 +343,20 @@ func init() {
 				rec("", 0)
 			case u == ns*layoutParts+nt+1:
 				nums := []string{"0", "7", "007", "10", "1.5", "1.50", "0.1", "00.5", "0.0", "100", "123456789", "9007199254740993", "1234567890123456789012345", "0.1234567890123456789012345", "12345.678901234567890123456789", "179769313486231570000000000000000000000000000000000000000000000000000000000000000000000000000000000000000000000000000000000000000000000000000000000000000000000000000000000000000000000000000000000000000000000000000000000000000000000000000000000000000000000000000000000000000000000000000000000000000000000000000", "0.000000000000000000000000000000000000000000000000000000000000000001", "4.35", "2.675", "0.30000000000000004", "9999999999999999", "99999999999999999999"}
+				// every digit string of length <= 4 over {0,1,7,8,9}, alone and with a fraction: decimal, never octal
+				var rec func(cur string)
+				rec = func(cur string) {
+					if cur != "" {
+						nums = append(nums, cur, cur+".5", cur+".08")
+					}
+					if len(cur) == 4 {
+						return
+					}
+					for _, d := range []string{"0", "1", "7", "8", "9"} {
+						rec(cur + d)
+					}
+				}
+				rec("")
 				for _, n := range nums {
 					s := c13Spec{Form: "numeral", Text: n}
 					c.Do(func() any { return s }, func() *fw.Violation { return c13NumeralCheck(c, n) })
